@@ -187,6 +187,36 @@ CLAIMED = {
    note=('Trusted: Lean kernel; axioms propext, Classical.choice, Quot.sound; harness; NumPy conversions and casts themselves.'),
    technique='Lean 4 proof of the container-independent wrapper logic + bit-exact differential correspondence over input variants of every method',
    design='4.C16'),
+ 'C01': dict(
+   text=('Lean 4 theorems (PbVerif.Props.C01): the wrapper returns the baseline (and per-point parameters) in the canonical shape of the '
+         'data (rows/columns one-dimensional, (M,N,1)-type stacks as (M,N)), in the caller\'s order (un-sorting after sorting is the '
+         'identity), in the documented dtype; the loop skeleton shared by the iterative methods records at most `budget` entries and its '
+         'three stop reasons (below tol / budget exhausted / early exit) are exhaustive and exactly characterised. Correspondence over all '
+         '95 methods x data kinds (noise+peaks, 1e6 offset, 1e-6 scale, negative, integer-valued, float32, int64, row/column/stack shapes, '
+         'unsorted x) x sizes 10..2000 x max_iter variations: shape, dtype, per-point parameter shapes, tol_history bound, finiteness, '
+         'ordering against the sorted run; trajectory replay: the tol=0 difference stream of each iterative method is fed to the Lean '
+         'skeleton, which predicts len(tol_history) and the stop reason for a (max_iter, tol) grid that the real method must reproduce.'),
+   note=('Partial: that each numerical core preserves the length of its input and yields finite numbers on noisy finite data is floating-'
+         'point behaviour of 95 NumPy bodies; it is decided on the explored inputs only. Trusted: Lean kernel; axioms propext, '
+         'Classical.choice, Quot.sound; harness; golden/loop_budget.json (iterations allowed per method, derived from the unchanged tree).'),
+   technique='Lean 4 proof of wrapper shape/order/dtype rule and loop-skeleton theorems + trajectory-replay correspondence + exhaustive method sweep',
+   design='4.C01'),
+ 'C09': dict(
+   text=('Lean 4 theorems (PbVerif.Props.C09): every reweighting rule of _weighting.py (asls, airpls, arpls, drpls/lsrpls, iarpls, aspls, '
+         'psalsa, derpsalsa, quantile, brpls) is defined ONCE over an arbitrary number type and proved, over every linear ordered field '
+         'with any positive monotone exp, any sqrt with its defining properties and |.|, to map into [0, 1] (airPLS: after normalisation; '
+         'quantile: positive and bounded by max(q,1-q)/sqrt(eps), as documented) and to never increase as the residual increases (asls/'
+         'psalsa/derpsalsa iff p <= 1-p, proved necessary); stop rule: first recorded value below tol, or budget exhausted, or early '
+         'exit, never earlier or later; history prefix; weights/baseline pairing at convergence and exhaustion. Correspondence: the SAME '
+         'definitions instantiated at Float are run by the driver against the real _weighting functions on residual vectors of size '
+         '3..2000, magnitudes 1e-100..1e100, all-positive/all-negative/ties/<2 negatives, iteration 1..200 (early-exit flag and zero '
+         'pattern exact, weights to 1e-9); direct range/monotonicity checks on the real outputs; hosts (1-D and 2-D): (max_iter, tol) grid '
+         'replay through the Lean skeleton on noisy data, early-exit hunting on noise-free data with the invariant len(tol_history) = '
+         'number of completed reweighting steps, and weights = rule(returned baseline) at exhaustion.'),
+   note=('Partial: brpls monotonicity (no erf in Mathlib; range proved for any erf value in [-1,1]); libm exp/expit/erf are trusted. '
+         'Trusted: Lean kernel; axioms propext, Classical.choice, Quot.sound; harness; Gen/Consts (_MIN_FLOAT read from the package each run).'),
+   technique='Lean 4 proof over abstract ordered fields of polymorphic rule definitions that are also executed at Float against the real code + loop-skeleton replay',
+   design='4.C09'),
 }
 
 checks = []
